@@ -26,6 +26,7 @@ type Profile struct {
 	BadNMPct  int
 	AllowMPoolEM bool
 	TwinUntagged bool // W1: a stop-tag call in which no rule sets the tag is repeated through the untagged variant and compared
+	LongHistPct int // W1: % of runs that are one long history (70-140 calls) of a single entry point on one engine
 	EvolvePct int // W1: % of runs whose rule set changes between calls (incremental builds, removals)
 }
 
